@@ -52,7 +52,11 @@ func VerifC05_deduct_unbonding() {
 	for i := 0; i < n; i++ {
 		b := ndBigInt(nm("bal", i))
 		ndAssume(b.IsPositive() && b.LT(lim))
-		entries[i] = stakingtypes.UnbondingDelegationEntry{Balance: b, InitialBalance: b, CreationHeight: int64(i)}
+		// an entry slashed for a validator infraction has a balance below its initial balance
+		slack := ndBigInt(nm("slashedFromEntry", i))
+		ndAssume(!slack.IsNegative())
+		ndAssume(slack.LT(math.NewInt(1000000000)))
+		entries[i] = stakingtypes.UnbondingDelegationEntry{Balance: b, InitialBalance: b.Add(slack), CreationHeight: int64(i)}
 		before = before.Add(b)
 	}
 	tokens := ndBigInt("tokens")
